@@ -355,7 +355,7 @@ func c20Cram(r *core.Result, rng *rand.Rand) {
 		var blocks bytes.Buffer
 		for bi := 0; bi < nb; bi++ {
 			var b bytes.Buffer
-			b.WriteByte(0)                      // raw
+			b.WriteByte(0)                     // raw
 			b.WriteByte(byte(4 + rng.Intn(2))) // external / core data
 			b.Write(i8(randI()))
 			n := rng.Intn(300)
